@@ -266,7 +266,13 @@ func Unpack(data []byte) (Doc, error) {
 			d.Meta[name] = rev(f.pool, s)
 		}
 	}
-	num := func(a, b int) int { v, err := strconv.Atoi(trimField(g[a:b])); if err != nil { return -1 }; return v }
+	num := func(a, b int) int {
+		v, err := strconv.Atoi(trimField(g[a:b]))
+		if err != nil {
+			return -1
+		}
+		return v
+	}
 	if v := num(236, 238); v != 0 {
 		d.Meta["rn"] = v
 	}
